@@ -218,7 +218,7 @@ func init() {
 		Assumptions: []string{"only API histories that the doc comments allow are generated (no mixing of data parts and monolithic data, single-track helpers only on single-track fragments, DecodeTime of each sample = previous + duration)",
 			"fault-free transport only (truncation/corruption is C04's configuration)", "live packager/player alternation is not simulated: the two nodes share no object"},
 		Real: realLib, Stub: []string{"io.Reader delivery (SimDisk handle)", "segment fetch order / duplication (unit transport)", "virtual device time"}, RealNoFault: realNoFault,
-		Runs:       map[string]int{"quick": 100000, "thorough": 8000000},
+		Runs:       map[string]int{"quick": 500000, "thorough": 30000000},
 		Setup:      work.SetupPackager,
 		Run:        c05Run,
 		WantFaults: []string{"read-short", "read-zero", "read-data+eof", "segment-duplicated", "segment-reordered"},
